@@ -457,7 +457,7 @@ def _site_setup(kind, with_routines=False):
     return bm, deb, obj
 
 
-def h_hydrogen_site(eng, kind, pre, then_complete):
+def h_hydrogen_site(eng, kind, pre, then_complete, undo=False):
     """kind: water | alcohol; pre: names of atoms placed (and binned, as the try_* helpers do) before finalize()"""
     from pdb2pqr import residue as residue_mod
     from pdb2pqr import utilities
@@ -561,8 +561,33 @@ def h_hydrogen_site(eng, kind, pre, then_complete):
                 centre.bonds.append(na)
             if centre not in na.bonds:
                 na.bonds.append(centre)
+        if undo:
+            # try_both: the donor side succeeds (hydrogen created and binned, as every try_* helper does), the acceptor
+            # side fails, so the hydrogen is taken back
+            hname = obj.hname if kind == "alcohol" else ("H2" if res.has_atom("H1") else "H1")
+
+            def donor_succeeds(donor, acc):
+                res.create_atom(hname, [centre.x + 0.6, centre.y - 0.7, centre.z + 0.2])
+                h = res.get_atom(hname)
+                log.add_cell(h)
+                if h not in centre.bonds:
+                    centre.bonds.append(h)
+                if centre not in h.bonds:
+                    h.bonds.append(centre)
+                return True
+
+            class OtherSide:
+                @staticmethod
+                def try_acceptor(acc, donor):
+                    return False
+
+            obj.try_donor = donor_succeeds
+            neighbour.residue.fixed = 0
+            ok = obj.try_both(centre, neighbour, OtherSide)
+            eng.check(not ok, "try-both-reports-failure")
+            del obj.try_donor
         obj.finalize()
-        what = "finalize()"
+        what = ("try_both() undone; " if undo else "") + "finalize()"
         if then_complete:
             obj.complete()
             what = "finalize(); complete()"
@@ -571,6 +596,130 @@ def h_hydrogen_site(eng, kind, pre, then_complete):
     mine = {id(a) for a in res.atoms}
     ghosts = sorted(a.name for i, a in log.atoms.items() if a.residue is res and i not in mine)
     eng.check(not ghosts, "deleted-atoms-leave-the-cell-map", note=f"{res.name}: atoms {ghosts} were deleted from the residue but are still listed in the cell map after {what}")
+
+
+# ---------------------------------------------------------------------------
+# Q4c': the carboxylic-acid optimisation (hydrogens/structures.py Carboxylic: four candidate protons, eliminated by
+# try_acceptor / try_donor / fix / finalize).  Real code on a real ASH / GLH residue; which event happens, which
+# pair is judged a hydrogen bond, which candidate is closer / better are symbolic selectors.  prop="C14": the cell
+# list holds exactly the residue's atoms afterwards; prop="C03": the residue ends with the atom set of its topology.
+# ---------------------------------------------------------------------------
+
+
+def _carboxylic_setup(resname):
+    from pdb2pqr import debump, hydrogens
+
+    base = {"ASH": "ASP", "GLH": "GLU"}[resname]
+    lines = [ln for ln in fixtures.peptide_lines(["ALA", base, "ALA"]) if not ln.startswith("END")]
+    lines = [(ln[:17] + resname + ln[20:]) if ln.startswith("ATOM") and int(ln[22:26]) == 2 else ln for ln in lines]
+    lines.append(fixtures.atom_line(900, "O", "HOH", "W", 50, 3.0, 8.0, 2.0, record="HETATM"))
+    bm, _ = fixtures.prepared(lines)
+    if bm.num_missing_heavy:
+        bm.repair_heavy()
+    bm.add_hydrogens()
+    deb = debump.Debump(bm)
+    routines = hydrogens.HydrogenRoutines(deb, hydrogens.create_handler())
+    routines.set_optimizeable_hydrogens()
+    bm.hold_residues(None)
+    routines.initialize_full_optimization()
+    obj = [o for o in routines.optlist if type(o).__name__ == "Carboxylic"][0]
+    return bm, deb, obj, routines
+
+
+def h_carboxylic_site(eng, resname, prop="C14"):
+    from pdb2pqr import utilities
+    from pdb2pqr.hydrogens import optimize
+    from pdb2pqr.hydrogens import structures as hs
+
+    cells, structures = _mods()
+    bm, deb, obj, routines = _carboxylic_setup(resname)
+    res = obj.residue
+    log = _CoordLog()
+    log.assign_cells(bm)
+    partner = [a for a in bm.atoms if a.residue is not res and a.residue.name in ("WAT", "HOH") and a.name == "O"][0]
+    log.get_near_cells = lambda atom: [partner]
+    deb.cells = log
+    lazy = {}
+
+    def sel(name, n=None):
+        if name not in lazy:
+            lazy[name] = eng.flag(name) if n is None else eng.choice(name, n)
+        return lazy[name]
+
+    label = {id(h): h.name for h in obj.hlist}
+    step = {"k": 0, "dist": 0}
+
+    def h_ok(h):
+        return sel(f"step{step['k']}_{label.get(id(h), h.name)}_points_at_partner")
+
+    def is_hbond(self, donor, acc):
+        return any(bool(h_ok(h)) for h in donor.bonds if h.is_hydrogen)
+
+    def angle(a, d, h):
+        return 0.0 if h_ok(h) else 180.0
+
+    def carbox_hbond(self, donor, acc):
+        return bool(sel(f"step{step['k']}_partner_donates_to_{acc.name}"))
+
+    def distance(a, b):
+        step["dist"] += 1
+        if step["dist"] % 2:
+            return 1.0
+        return 0.5 if sel(f"step{step['k']}_second_candidate_closer") else 1.5
+
+    def energy(a, b):
+        names = [x.name for x in obj.atomlist]
+        best = names[sel("finalize_prefers_oxygen", len(names))] if len(names) > 1 else names[0]
+        return -1.0 if a.name == best or b.name == best else 0.0
+
+    class Util:
+        def __getattr__(self, name):
+            return getattr(utilities, name)
+
+    u = Util()
+    u.distance = distance
+    nevents = sel("events", 3)
+    history = []
+    with patched(
+        (hs, "util", u),
+        (optimize.Optimize, "is_hbond", is_hbond),
+        (optimize.Optimize, "get_hbond_angle", staticmethod(angle)),
+        (optimize.Optimize, "get_pair_energy", staticmethod(energy)),
+        (hs.Carboxylic, "is_carboxylic_hbond", carbox_hbond),
+    ):
+        try:
+            for k in range(nevents):
+                step["k"] = k
+                if res.fixed:
+                    break  # optimize_hydrogens skips fixed residues
+                ox = obj.atomlist[sel(f"step{k}_oxygen", len(obj.atomlist))] if len(obj.atomlist) > 1 else obj.atomlist[0]
+                if sel(f"step{k}_is_donor_attempt"):
+                    history.append(f"try_donor({ox.name})")
+                    obj.try_donor(ox, partner)
+                else:
+                    history.append(f"try_acceptor({ox.name})")
+                    obj.try_acceptor(ox, partner)
+            history.append("complete")
+            obj.complete()
+            routines.cleanup()
+        except (UnboundLocalError, AttributeError, KeyError, ValueError) as e:
+            eng.check(True, "loud-failure-tolerated", note=f"{history}: {type(e).__name__}: {str(e)[:80]}")
+            return
+    eng.note(f"{resname}: {' '.join(history)} -> hydrogens {[a.name for a in res.atoms if a.is_hydrogen and a.bonds and a.bonds[0].name.startswith('O')]}")
+    what = f"{resname}: {' '.join(history)}"
+    if prop == "C14":
+        _check_binned_where_it_is(eng, cells, structures, log, list(res.atoms), 5, what)
+        mine = {id(a) for a in res.atoms}
+        ghosts = sorted(a.name for i, a in log.atoms.items() if a.residue is res and i not in mine)
+        eng.check(not ghosts, "deleted-atoms-leave-the-cell-map", note=f"{what}: atoms {ghosts} were deleted from the residue but are still listed in the cell map")
+    else:
+        ref = set(res.reference.map) - {"C-1", "N+1"}
+        names = [a.name for a in res.atoms]
+        extra = sorted(n for n in names if n not in ref)
+        acid_h = sorted(n for n in names if n.startswith("H") and res.get_atom(n).bonds and res.get_atom(n).bonds[0].name.startswith("O") and res.get_atom(n).bonds[0].name != "O")
+        eng.check(not extra, "no-placeholder-atoms-left", note=f"{what}: atoms {extra} are not part of the residue's topology (candidate protons of the optimisation left behind)")
+        eng.check(len(acid_h) == 1, "exactly-one-acid-proton", note=f"{what}: the protonated acid ends with protons {acid_h}")
+        eng.check(len(names) == len(set(names)), "no-duplicate-names")
 
 
 # ---------------------------------------------------------------------------
@@ -841,6 +990,10 @@ def obligations(tier):
     obs.append(Obligation("map-rebuilt-between-passes", h_map_rebuilt, {}, group="map-rebuilt", time_cap=900))
     for hq, ho in ((True, True), (True, False), (False, False)):
         obs.append(Obligation(f"bump-search-{'heavy' if hq else 'hydrogen'}-{'heavy' if ho else 'hydrogen'}", h_bump_search, dict(heavy_query=hq, heavy_other=ho), group="partner-search", time_cap=600))
+    for kind, pre in (("water", ()), ("water", ("H1",)), ("alcohol", ()), ("alcohol", ("LP1",))):
+        obs.append(Obligation(f"hydrogen-site-{kind}-{'+'.join(pre) or 'bare'}-undone-try-both", h_hydrogen_site, dict(kind=kind, pre=list(pre), then_complete=True, undo=True), group="hydrogen-site", time_cap=1200))
+    for resname in ("ASH",) if tier == "quick" else ("ASH", "GLH"):
+        obs.append(Obligation(f"carboxylic-site-{resname}", h_carboxylic_site, dict(resname=resname, prop="C14"), group="hydrogen-site", time_cap=1500, max_paths=100000))
     for kind in ("water", "alcohol"):
         obs.append(Obligation(f"partner-search-{kind}", h_partner_search, dict(kind=kind), group="partner-search", time_cap=600))
     if tier == "thorough":
